@@ -1,6 +1,303 @@
 import RV.Json
+import RV.Drv.Arith
+import RV.Drv.Executor
+import RV.Drv.CtlPDeploy
+import RV.Drv.CtlSts
+import RV.Drv.CtlBlueGreen
+import RV.Drv.CtlCanary
+import RV.Model.ExecutorXPlanes
+import RV.Oracle.ExecutorXPlanes
+/-!
+  Driver of suite `executorx`: one real `BatchReleaseReconciler.Reconcile` over any control plane.
+
+  in   = { kind, style, enableExtra, br, world{shape, obs, …}, k }          (k > 0: the k-th API call failed)
+  impl = { br: {hasFinalizer, status} | null, world: {…}, requeue, err } | { panic }
+
+  The plane is chosen by the model's `dispatch`; the world is decoded with the plane's own decoders (the drivers of the
+  suites ctlpdeploy / ctlsts / ctlbluegreen / ctlcanary / executor).  The oracles are evaluated on the implementation's output.
+-/
 namespace RV.Drv.ExecutorX
-open Lean RV
-/-- stub: replaced by the slice that owns this suite -/
-def handle : Handler := fun _ _ _ => .error "suite not built yet"
+open Lean RV RV.Arith RV.Executor RV.ExecutorX RV.Oracle.ExecutorX RV.Drv.Arith
+
+/-- a plane with everything the driver needs to run it -/
+structure Pack (W : Type) where
+  name : String
+  plane : Plane W
+  preds : Preds W
+  /-- full-strength `released` (the guards name where the unchanged code falls short of it) -/
+  releasedFull : BR → W → Bool
+  guards : BR → W → List String
+  /-- the plane's own "may panic" region (objects the API server would not serve) -/
+  planePanicOK : BR → W → Bool
+  decode : Json → R W
+  /-- the world JSON after: the input world with the keys the plane writes replaced -/
+  encode : Json → W → Json
+  tags : BR → W → List String
+
+def setKeys (j : Json) (kvs : List (String × Json)) : Json :=
+  kvs.foldl (fun acc (k, v) => acc.setObjVal! k v) j
+
+def obsOfJson (j : Json) : R Obs := do
+  return { generation := ← fInt j "generation", observedGeneration := ← fInt j "observedGeneration",
+           statusReplicas := ← fInt j "statusReplicas", updated := ← fInt j "updated", updatedReady := ← fInt j "updatedReady",
+           updateRevision := ← fStr j "updateRevision", stableRevision := ← fStr j "stableRevision" }
+
+def optOf {α} (j : Json) (k : String) (f : Json → R α) : R (Option α) :=
+  match jopt j k with
+  | none => pure none
+  | some v => do return some (← f v)
+
+/-! ### the planes -/
+
+def csPack : Pack (Option Workload) where
+  name := "csPartition"
+  plane := csPlane
+  preds := csPreds
+  releasedFull := csPreds.released
+  guards := fun _ _ => []
+  planePanicOK := fun _ _ => false
+  decode := fun j => optOf j "wl" RV.Drv.Executor.wlOfJson
+  encode := fun j w => setKeys j [("wl", optJ RV.Drv.Executor.wlToJson w)]
+  tags := fun _ w => [if w.isSome then "wl" else "nowl"]
+
+def pdepPack : Pack PDepW where
+  name := "depPartition"
+  plane := pdepPlane
+  preds := pdepPreds
+  releasedFull := pdepPreds.released
+  guards := fun _ _ => []
+  planePanicOK := fun _ w => match w.dep with
+    | some d => d.replicas.isNone
+    | none => false
+  decode := fun j => do
+    return { dep := ← optOf j "dep" RV.Drv.CtlPDeploy.depOfJson, obs := ← obsOfJson (← jget j "obs") }
+  encode := fun j w => setKeys j [("dep", optJ RV.Drv.CtlPDeploy.depToJson w.dep)]
+  tags := fun _ w => match w.dep with
+    | none => ["nowl"]
+    | some d => ["wl", if CtlPDeploy.isUnderRolloutControl d then "pdep:controlled" else "pdep:free"]
+
+def statusOfJsonSts (j : Json) : R CtlSts.WlStatus := do
+  return { updateRevision := ← fStr j "updateRevision", updated := ← fInt j "updated", ready := ← fInt j "ready" }
+
+def stsPack : Pack StsW where
+  name := "stsLike"
+  plane := stsPlane
+  preds := stsPreds
+  releasedFull := stsPreds.released
+  guards := fun _ _ => []
+  planePanicOK := fun _ w => match w.wl with
+    | some wl => (CtlSts.replicasOf wl).isNone
+    | none => false
+  decode := fun j => do
+    let pods ← (← fArrD j "pods").mapM RV.Drv.CtlSts.podOfJson
+    return { wl := ← optOf j "sts" RV.Drv.CtlSts.wlOfJson,
+             cl := { status := ← statusOfJsonSts (← jget j "status"), pods := pods },
+             obs := ← obsOfJson (← jget j "obs") }
+  encode := fun j w => setKeys j [("sts", optJ RV.Drv.CtlSts.wlToJson w.wl)]
+  tags := fun _ w => match w.wl with
+    | none => ["nowl"]
+    | some wl => ["wl", s!"sts:{RV.Drv.CtlSts.kindStr wl.kind}", s!"sts:pods:{min w.cl.pods.length 6}"]
+
+def bgPack (kind : CtlBlueGreen.Kind) : Pack BGW where
+  name := match kind with
+    | .deployment => "depBlueGreen"
+    | .cloneSet => "csBlueGreen"
+  plane := bgPlane kind
+  preds := bgPreds kind
+  releasedFull := fun _ w => bgReleasedFull w
+  guards := fun br w =>
+    (if gBgPartitioned br then ["guard:bgPartitionedFinalize"] else []) ++
+    (if gBgRestoredControlled w then ["guard:bgRestoredControlled"] else [])
+  planePanicOK := fun _ w => match w.w.wl with
+    | some wl => wl.replicas.isNone
+    | none => false
+  decode := fun j => do
+    return { w := ← RV.Drv.CtlBlueGreen.worldOfJson (← jget j "bg"), obs := ← obsOfJson (← jget j "obs") }
+  encode := fun j w => setKeys j [("bg", RV.Drv.CtlBlueGreen.worldToJson w.w)]
+  tags := fun _ w => match w.w.wl with
+    | none => ["nowl"]
+    | some wl => ["wl", if bgControlled wl then "bg:controlled" else "bg:free",
+                  if wl.saved = .none then "bg:nosaved" else "bg:saved"]
+
+def patchOfJson (j : Json) : R (Option (CtlCanary.KV × CtlCanary.KV)) :=
+  match jopt j "patch" with
+  | none => pure none
+  | some p => do
+    pure (some (← RV.Drv.CtlCanary.kvOfJson (jgetD p "labels" .null), ← RV.Drv.CtlCanary.kvOfJson (jgetD p "annos" .null)))
+
+def canaryPack : Pack CanaryW where
+  name := "depCanary"
+  plane := canaryPlane
+  preds := canaryPreds
+  releasedFull := canaryPreds.released
+  guards := fun _ _ => []
+  planePanicOK := fun br w => RV.Oracle.CtlCanary.panicAllowed (canaryBR br w) w.w
+  decode := fun j => do
+    return { w := ← RV.Drv.CtlCanary.worldOfJson (← jget j "deps"), exp := ← RV.Drv.CtlCanary.expOf (← fStr j "exp"),
+             timedOut := ← fBool j "timedOut", waitResume := ← fBool j "waitResume", patch := ← patchOfJson j }
+  encode := fun j w => setKeys j [("deps", RV.Drv.CtlCanary.worldToJson w.w), ("exp", strJ (RV.Drv.CtlCanary.expStr w.exp))]
+  tags := fun br w =>
+    [if (w.w.find 0).isSome then "wl" else "nowl", s!"canary:deps:{min w.w.deps.length 5}",
+     s!"canary:match:{min (RV.Oracle.CtlCanary.matchCount (canaryBR br w) w.w) 3}",
+     if w.exp = .pending then "canary:exp-pending" else "canary:exp-none"] ++
+    (if w.waitResume then ["canary:waitResume"] else []) ++ (if w.patch.isSome then ["canary:patchMeta"] else [])
+
+def rsPack : Pack Bool where
+  name := "stsLike(ReplicaSet)"
+  plane := rsPlane
+  preds := rsPreds
+  releasedFull := rsPreds.released
+  guards := fun _ ex => if ex then ["guard:stsPlaneForeignKind"] else []
+  planePanicOK := fun _ _ => false
+  decode := fun j => fBool j "exists"
+  encode := fun j ex => setKeys j [("exists", boolJ ex)]
+  tags := fun _ ex => [if ex then "wl" else "nowl"]
+
+/-! ### kinds and styles -/
+
+def refKindOf : String → R RefKind
+  | "cloneSet" => pure .cloneSet | "daemonSet" => pure .daemonSet | "deployment" => pure .deployment
+  | "nativeSts" => pure .nativeSts | "advancedSts" => pure .advancedSts | "replicaSet" => pure .replicaSet
+  | "unsupported" => pure .unsupported
+  | s => .error s!"executorx: kind {s}"
+
+def styleOf : String → Style
+  | "" => .empty | "Partition" => .partition | "Canary" => .canary | "BlueGreen" => .blueGreen | _ => .other
+
+def styleStr : Style → String
+  | .empty => "empty" | .partition => "Partition" | .canary => "Canary" | .blueGreen => "BlueGreen" | .other => "Other"
+
+/-! ### one case -/
+
+def outJson {W : Type} (pk : Pack W) (worldIn : Json) (o : StepOutX W) : Json :=
+  mkObj [("br", match o.br with
+            | none => .null
+            | some b => mkObj [("hasFinalizer", boolJ b.hasFinalizer), ("status", RV.Drv.Executor.statusToJson b.status)]),
+         ("world", pk.encode worldIn o.wl), ("requeue", boolJ o.requeue), ("err", boolJ o.err)]
+
+def eventStr : Event → String
+  | .normal => "normal" | .gone => "gone" | .stillReconciling => "stillReconciling" | .replicasChanged => "replicasChanged"
+  | .rollbackInBatch => "rollbackInBatch" | .podTemplateChanged => "podTemplateChanged"
+
+/-- run one case on a plane -/
+def runPack {W : Type} [DecidableEq W] (pk : Pack W) (br : BR) (worldIn : Json) (k : Nat) (impl : Json) (baseTags : List String) :
+    R OpResult := do
+  let w ← pk.decode worldIn
+  let Q := pk.preds
+  let br1 := withFinalizer br
+  let stopped := stoppedX pk.plane br w
+  let ready := Q.ready br1 w
+  let scaled := scaledX pk.plane br w
+  let ev := match pk.plane.syncInfo br1 (initializedStatus br.status) w with
+    | .val (e, _) => eventStr e
+    | .panic => "panic"
+  let mres := reconcileX pk.plane br w
+  let model := if k > 0 then Json.null else
+    match mres with
+    | .panic => mkObj [("panic", strJ "?")]
+    | .val o => outJson pk worldIn o
+  let guards := pk.guards br w
+  let mtags := match mres with
+    | .panic => ["model:panic"]
+    | .val o =>
+      (match o.br with
+       | none => ["out:gone"]
+       | some b =>
+         [s!"out:phase:{RV.Drv.Executor.phaseStr b.status.phase}"] ++
+         (if b.status.currentBatch > br.status.currentBatch then ["out:advanced"] else []) ++
+         (if b.status.phase = .completed ∧ br.status.phase ≠ .completed then ["out:completed-now"] else []) ++
+         (if b.status.batchState = .ready ∧ br.status.batchState ≠ .ready then ["out:ready-now"] else []) ++
+         (if b.status.phase = .progressing ∧ br.status.phase ≠ .progressing then ["out:initialized-now"] else [])) ++
+      (if o.wl ≠ w then ["out:world-written"] else []) ++ (if o.err then ["out:err"] else [])
+  let tags := baseTags ++ [s!"plane:{pk.name}", if stopped then "stopped" else "acted", s!"event:{ev}",
+      if ready then "ready" else "notready", if k > 0 then "fault" else "nofault"] ++ pk.tags br w ++ mtags ++ guards
+  match jopt impl "panic" with
+  | some _ =>
+    let allowed := panicAllowed (pk.planePanicOK br w) br
+    return { model := model, holds := [("C09.x_no_panic", allowed)], tags := "impl:panic" :: tags }
+  | none =>
+    let ibr ← (match jopt impl "br" with
+      | none => pure none
+      | some b => do
+        let st ← RV.Drv.Executor.statusOfJson (← jget b "status")
+        pure (some { br with hasFinalizer := ← fBool b "hasFinalizer", status := st }))
+    let w' ← pk.decode (← jget impl "world")
+    let holds := stepOracles stopped ready (pk.releasedFull br1 w') (Q.claimed br1 w w') (Q.wf w && Q.expoOK br1 w) scaled
+      (Q.exposure w) (Q.exposure w') (Q.allowed br1 w) br w ibr w'
+    -- with an injected API fault the status update itself may have failed: only the clauses that do not depend on the new
+    -- status having been persisted are judged (what was written, the finalizer, Completed ⇒ released, the cursor bounds)
+    let robust := ["C18.x_finalizer_guards_teardown", "C06.x_no_act_before_persist", "C01.x_no_act_before_persist",
+      "C11.x_batch_advance_guarded", "C01.x_batch_advance_guarded", "C11.x_within_partition", "C01.x_within_partition",
+      "C01.x_write_within_batch", "C11.x_completed_means_released", "C18.x_completed_means_released",
+      "C01.x_init_claims", "C11.x_init_claims"]
+    let holds := if k > 0 then holds.filter (fun kv => robust.contains kv.1) else holds
+    return { model := model, holds := ("C09.x_no_panic", true) :: holds, tags := tags }
+
+def handle : Handler := fun op inp impl => do
+  match op with
+  | "reconcile" =>
+    let kind ← refKindOf (← fStr inp "kind")
+    let style := styleOf (← fStr inp "style")
+    let enable ← fBool inp "enableExtra"
+    let br ← RV.Drv.Executor.brOfJson (← jget inp "br")
+    let worldIn ← jget inp "world"
+    let shape ← fStr worldIn "shape"
+    let k ← fNat inp "k"
+    let baseTags := [s!"kind:{← fStr inp "kind"}", s!"style:{styleStr style}", s!"phase:{RV.Drv.Executor.phaseStr br.status.phase}",
+      s!"state:{RV.Drv.Executor.bstateStr br.status.batchState}", if br.deleting then "deleting" else "live",
+      if br.partition.isSome then "partitioned" else "nopartition", if br.rollbackAnno then "rollbackAnno" else "noRollbackAnno",
+      s!"hash:{RV.Drv.Executor.hashStr br.status.hash}",
+      match dispatch kind style enable with
+      | none => "dispatch:none"
+      | some .csPartition => "dispatch:csPartition" | some .dsPartition => "dispatch:dsPartition"
+      | some .depPartition => "dispatch:depPartition" | some .stsLike => "dispatch:stsLike"
+      | some .depCanary => "dispatch:depCanary" | some .csBlueGreen => "dispatch:csBlueGreen"
+      | some .depBlueGreen => "dispatch:depBlueGreen"]
+    let implPanic := (jopt impl "panic").isSome
+    let mismatch : R OpResult :=
+      return { model := .null, holds := [], tags := "mismatch:dispatch" :: baseTags }
+    -- a CloneSet / Deployment / DaemonSet that no arm of `getReleaseController` serves under this style is handed to the
+    -- StatefulSet-like control (finding `stsPlaneForeignKind`): not modelled, judged on "does not crash" alone
+    let foreign : R OpResult :=
+      return { model := .null, holds := [("C09.x_no_panic", !implPanic)],
+               tags := ["plane:stsLike(foreign kind)", "guard:stsPlaneForeignKind", if k > 0 then "fault" else "nofault"] ++
+                       (if implPanic then ["impl:panic"] else []) ++ baseTags }
+    match dispatch kind style enable with
+    | none =>
+      -- no plane: the initialised status is persisted, nothing else
+      let model := if k > 0 then Json.null else
+        match (reconcileNoPlane br () : Out (StepOutX Unit)) with
+        | .panic => mkObj [("panic", strJ "?")]
+        | .val o =>
+          mkObj [("br", match o.br with
+                    | none => .null
+                    | some b => mkObj [("hasFinalizer", boolJ b.hasFinalizer), ("status", RV.Drv.Executor.statusToJson b.status)]),
+                 ("world", worldIn), ("requeue", boolJ o.requeue), ("err", boolJ o.err)]
+      let tags := baseTags ++ ["plane:none", if k > 0 then "fault" else "nofault"]
+      match jopt impl "panic" with
+      | some _ => return { model := model, holds := [("C09.x_no_panic", false)], tags := "impl:panic" :: tags }
+      | none =>
+        let ibr ← (match jopt impl "br" with
+          | none => pure none
+          | some b => do
+            let st ← RV.Drv.Executor.statusOfJson (← jget b "status")
+            pure (some { br with hasFinalizer := ← fBool b "hasFinalizer", status := st }))
+        let unchanged := (← jget impl "world").compress == worldIn.compress
+        return { model := model,
+                 holds := [("C09.x_no_panic", true), ("C18.x_finalizer_guards_teardown", goneOnlyWhenCompleted br ibr),
+                           ("C06.x_no_act_before_persist", unchanged), ("C01.x_no_act_before_persist", unchanged)],
+                 tags := tags }
+    | some .csPartition => if shape = "cs" then runPack csPack br worldIn k impl baseTags else mismatch
+    | some .depPartition => if shape = "pdep" then runPack pdepPack br worldIn k impl baseTags else mismatch
+    | some .dsPartition => if shape = "sts" then runPack stsPack br worldIn k impl baseTags else mismatch
+    | some .stsLike =>
+      if shape = "sts" ∧ (kind = .nativeSts ∨ kind = .advancedSts) then runPack stsPack br worldIn k impl baseTags
+      else if shape = "rs" ∧ kind = .replicaSet then runPack rsPack br worldIn k impl baseTags
+      else if kind = .cloneSet ∨ kind = .deployment ∨ kind = .daemonSet then foreign
+      else mismatch
+    | some .depCanary => if shape = "canary" then runPack canaryPack br worldIn k impl baseTags else mismatch
+    | some .csBlueGreen => if shape = "bg" then runPack (bgPack .cloneSet) br worldIn k impl baseTags else mismatch
+    | some .depBlueGreen => if shape = "bg" then runPack (bgPack .deployment) br worldIn k impl baseTags else mismatch
+  | _ => .error s!"executorx: unknown op {op}"
+
 end RV.Drv.ExecutorX
